@@ -137,6 +137,27 @@ def fam_limit(tier, seed, n):
     return out, None
 
 
+def fam_lookback(tier, seed, n):
+    """ look-back windows whose size n * perc / 100 is an exact integer, with the oldest hit of the window the lowest one: the window
+    must hold exactly that many hits (includes the (n, perc) pairs for which n * (perc / 100) falls just below the integer in floats) """
+    import random
+    hard = [(nn, pp) for nn in range(8, 130) for pp in range(1, 100) if (nn * pp) % 100 == 0 and int(nn * (pp / 100)) != nn * pp // 100]
+    easy = [(20, 50), (40, 30), (50, 10), (60, 70), (25, 20)]
+    out = []
+    for i in range(n):
+        rng = random.Random(f'lookback:{seed}:{i}')
+        nn, pp = (hard + easy)[i % (len(hard) + len(easy))]
+        k = nn * pp // 100                                     # the window: the k most recent hits
+        H = rng.choice([1500, 3000])
+        low = rng.choice([k, k, k + 1, max(1, k - 1)])         # which of the most recent hits is the low one (k: the edge of the window)
+        rows = [['a', -15.0 * j, H - (20 if j + 1 == low else 0), 1] for j in range(nn)]
+        if rng.random() < 0.5:
+            rows.reverse()
+        out.append({'family': 'F3h', 'name': f'lookback:{seed}:{i}:{nn}:{pp}', 'rows': rows, 'indomain': True,
+                    'prms': {'BASE_LVL_LOOKBACK_PERC': pp, 'BASE_LVL_HEIGHT_PERC': rng.choice([0, 0, 5]), 'MAX_HITS_OKTA0': 0}})
+    return out, None
+
+
 def fam_stress(tier, seed, n):
     """ real-size stress scenes: > 100 slices with a dense two-level group lowest (layer-id space),
     many groups, many layers """
@@ -190,8 +211,8 @@ PLANS = {
                'thorough': [('base', dict(invariants=['Inv_C04'], prmset='PrmBase', ceilos=('a', 'b'), nt=2, maxper=1)),
                             ('code', dict(invariants=['Inv_C04'], prmset='PrmBaseQ', ceilos=('a', 'b'), nt=2, lattice='LatticeB', maxper=1)),
                             ('base3', dict(invariants=['Inv_C04'], prmset='PrmBaseQ', ceilos=('a',), nt=4, maxper=1, orders=('asc', 'desc')))]},
-        'families': {'quick': [('F3', fam_bands, 500), ('F3b', fam_split, 150), ('F3c', fam_boundary, 300), ('Rlone', fam_lonemulti, 80), ('Rcross', fam_crossing, 60), ('Rtiny', fam_rand('tiny'), 300), ('Rmid', fam_rand('mid'), 60)],
-                     'thorough': [('F3', fam_bands, 12000), ('F3b', fam_split, 3000), ('F3c', fam_boundary, 4000), ('Rlone', fam_lonemulti, 1500), ('Rtiny', fam_rand('tiny'), 4000), ('Rmid', fam_rand('mid'), 600), ('Rbig', fam_rand('big'), 60)]},
+        'families': {'quick': [('F3', fam_bands, 500), ('F3b', fam_split, 150), ('F3c', fam_boundary, 300), ('F3h', fam_lookback, 40), ('Rlone', fam_lonemulti, 80), ('Rcross', fam_crossing, 60), ('Rtiny', fam_rand('tiny'), 300), ('Rmid', fam_rand('mid'), 60)],
+                     'thorough': [('F3', fam_bands, 12000), ('F3b', fam_split, 3000), ('F3c', fam_boundary, 4000), ('F3h', fam_lookback, 400), ('Rlone', fam_lonemulti, 1500), ('Rtiny', fam_rand('tiny'), 4000), ('Rmid', fam_rand('mid'), 600), ('Rbig', fam_rand('big'), 60)]},
         'marks': ['N_lookback', 'N_baseties', 'N_excl', 'N_fallback', 'N_interp', 'N_above10k', 'N_floattie', 'N_nearboundary'],
         'seed_shift': 13,
     },
